@@ -7,7 +7,7 @@ CONSTANTS
   FileSeq <- Seq3
   MaxStmts = 2
   GenKinds = {"use", "forward", "import", "loadcss"}
-  GenSpellings = {"plain", "dot", "dd"}
+  GenSpellings = {"plain", "dot", "dd", "ext"}
   DevChoices <- DevIdeal
   MaxFaultAt = 0
 INVARIANTS UrlsResolve LockDiscipline DepthBound LoopOnlyOnCycle NeverOverflow InitOnce OkOnlyAcyclic Emit
